@@ -19,7 +19,7 @@ ALPHA = {0: 0.0, 1: 0.5, 2: 1.0}
 
 
 class CrossWorld:
-    def __init__(self, cfg, seed=0):
+    def __init__(self, cfg, seed=0, fullrank=False):
         self.cfg = cfg
         rng = np.random.default_rng(abs(hash((seed, tuple(cfg["sx"]), tuple(cfg["sy"]), tuple(cfg["ovl"]), cfg["wide"]))) % (2 ** 32))
         sx, sy = np.array(cfg["sx"], float), np.array(cfg["sy"], float)
@@ -32,6 +32,8 @@ class CrossWorld:
             Uy[:, j] = (c * H[:, 1 + j] if j < rx else 0.0) + np.sqrt(1 - c * c) * H[:, 8 + j]
         px = (N + 4) if cfg["wide"] else rx + 1
         py = (N + 2) if cfg["wide"] else ry + 2
+        if fullrank:            # square right factors: every feature direction carries variance
+            px, py = rx, ry
         Vx, Vy = _orth(rng, px, rx, cplx), _orth(rng, py, ry, cplx)
         self.X0 = (Ux * sx) @ Vx.conj().T
         self.Y0 = (Uy * sy) @ Vy.conj().T
